@@ -152,7 +152,10 @@ type stepObs struct {
 	At    string   `json:"t"`
 }
 
-type failure struct{ key, desc string }
+type failure struct {
+	key, desc string
+	step      int // index of the failing step (len(hist) = the implicit Close); the replay is the prefix up to it
+}
 
 // classify renders what a returned call returned (stable class).
 func classify(s *sender) string {
@@ -184,9 +187,10 @@ func classify(s *sender) string {
 func run(t *testing.T, cfg config, hist []event) (obs []stepObs, fail *failure, leak string) {
 	leak = e2.Run(t, func(w *e2.World) {
 		w.OnLeak = onLeak
+		cur := len(hist)
 		bad := func(key, format string, a ...any) {
 			if fail == nil {
-				fail = &failure{key: key, desc: fmt.Sprintf(format, a...)}
+				fail = &failure{key: key, desc: fmt.Sprintf(format, a...), step: cur}
 			}
 		}
 		o := e2.Opts{Active: cfg.Active, Equip: cfg.Equip, NoHandle: true, Conn: []hsms.ConnOption{
@@ -264,7 +268,7 @@ func run(t *testing.T, cfg config, hist []event) (obs []stepObs, fail *failure, 
 
 		// observe compares every call and the handler logs with the reference after one event
 		observe := func(step int, ev event, sent []peer.Frame) bool {
-			where := fmt.Sprintf("step %d (%s) of %v [%s]", step, ev, histString(hist), cfg)
+			where := fmt.Sprintf("step %d (%s) of %v [%s]", step, ev, histString(hist[:min(step+1, len(hist))]), cfg)
 			back := w.Read()
 			so := stepObs{Event: ev.String(), State: w.C.State().String(), At: w.Now().String()}
 			for _, f := range sent {
@@ -444,6 +448,7 @@ func run(t *testing.T, cfg config, hist []event) (obs []stepObs, fail *failure, 
 		}
 
 		for step, ev := range hist {
+			cur = step
 			if terminated {
 				bad("harness", "event after a terminal event")
 				return
@@ -546,6 +551,7 @@ func run(t *testing.T, cfg config, hist []event) (obs []stepObs, fail *failure, 
 			}
 		}
 		// implicit last step: Close() ends every transaction that is still open
+		cur = len(hist)
 		if !terminated {
 			closeAll("closed")
 			_ = w.Close()
@@ -730,6 +736,9 @@ func check(c *vfw.Ctx, t *testing.T, cfg config, h []event) {
 		if fail.key == "harness" {
 			c.HarnessError("%s [%s]: %s", histString(h), cfg, fail.desc)
 			return
+		}
+		if fail.step < len(h) {
+			rc.Hist = h[:fail.step+1] // minimal replay: the prefix that ends with the failing step
 		}
 		c.Violate(fail.key, fail.desc, rc)
 		c.Outcome("violation:" + fail.key)
